@@ -13,9 +13,17 @@ import (
 )
 
 func main() {
-	ops := strings.Fields(os.Args[1])
+	opt := world.DefaultOptions()
+	var ops []string
+	for _, o := range strings.Fields(os.Args[1]) {
+		if strings.HasPrefix(o, "opt~shards=") {
+			fmt.Sscanf(o, "opt~shards=%d", &opt.Shards)
+			continue
+		}
+		ops = append(ops, o)
+	}
 	w := world.NewWorld()
-	p, err := world.NewPipeline(w, world.DefaultOptions())
+	p, err := world.NewPipeline(w, opt)
 	if err != nil {
 		panic(err)
 	}
